@@ -30,6 +30,8 @@ type goPanic struct {
 	val   Value
 	msg   string // human-readable
 	stack string
+	// inHarness: raised by an instruction of a harness file (zz_verif_*.go), not by code under test
+	inHarness bool
 }
 
 type pathEnd struct {
@@ -74,7 +76,7 @@ type Interp struct {
 	ctx  *sym.Ctx
 	Sol  *solver.Solver
 	// Sol2, if set, re-decides every assertion query that Sol answered unsat (cross-check)
-	Sol2 *solver.Solver
+	Sol2         *solver.Solver
 	XCheckBudget int // max unsat answers re-decided per worker
 
 	globals    map[*ssa.Global]*Value
@@ -351,10 +353,26 @@ func (ip *Interp) iteTable(idx *sym.Term, vals []Value) Value {
 
 func (ip *Interp) rtPanic(msg string) {
 	full := "runtime error: " + msg
-	panic(&goPanic{val: Iface{T: rtErrorType, V: mkStr(ip.ctx, full)}, msg: full, stack: ip.stackString()})
+	panic(&goPanic{val: Iface{T: rtErrorType, V: mkStr(ip.ctx, full)}, msg: full, stack: ip.stackString(), inHarness: ip.topIsHarness()})
 }
 
 var rtErrorType = types.NewNamed(types.NewTypeName(token.NoPos, nil, "runtimeError", nil), types.Typ[types.String], nil)
+
+// topIsHarness reports whether the innermost interpreted frame belongs to a harness file.
+func (ip *Interp) topIsHarness() bool {
+	f := ip.curFrame
+	if f == nil || f.fn == nil {
+		return false
+	}
+	fn := f.fn
+	for fn.Parent() != nil {
+		fn = fn.Parent()
+	}
+	if !fn.Pos().IsValid() {
+		return false
+	}
+	return strings.Contains(ip.Prog.Fset.Position(fn.Pos()).Filename, "zz_verif_")
+}
 
 func (ip *Interp) stackString() string {
 	var sb strings.Builder
@@ -765,7 +783,7 @@ func (ip *Interp) visit(fr *frame, instr ssa.Instruction) kont {
 		ip.runDefers(fr)
 	case *ssa.Panic:
 		v := ip.get(fr, instr.X)
-		panic(&goPanic{val: v, msg: ip.panicText(v), stack: ip.stackString()})
+		panic(&goPanic{val: v, msg: ip.panicText(v), stack: ip.stackString(), inHarness: ip.topIsHarness()})
 	case *ssa.Send, *ssa.Go, *ssa.Select, *ssa.MakeChan:
 		panic(unsupported(fmt.Sprintf("%T (concurrency)", instr)))
 	case *ssa.Store:
